@@ -31,6 +31,9 @@ CHECKS = {
  "C13": dict(technique="bounded-exhaustive enumeration of well-typed programs x layouts x identifier occurrences through the real references/rename/prepareRename handlers; expected occurrence sets from reference scoping rules; rename applied, re-opened, re-queried and reverted",
    text="for every identifier occurrence: references = exactly the other occurrences of the binding, rename = exactly one edit per occurrence, prepareRename = the identifier's range iff rename is offered; for every declared binding the rename to a fresh name is applied with an independent edit model, the result re-opened (no diagnostics), the occurrence set re-queried, and renaming back restores the text",
    note="bindings from refsem.rs; predefined entities and `main` are excluded from the apply/re-query phase (renaming them legitimately changes diagnostics)", ref="4/C13"),
+ "C14": dict(technique="bounded-exhaustive enumeration of well-typed programs x layouts x identifier columns (hover) and x every byte position inside call argument lists (signature help) through the real handlers; expected signatures rendered from the reference semantics",
+   text="hover at every column of every identifier occurrence: range is the identifier, text contains in order kind/name/ref marker/resolved type of the bound declaration and its doc comment; signature help at every byte position between the parentheses of every call: label names the callee, one entry per declared parameter (name, ref marker, resolved type), active parameter = number of commas before the cursor",
+   note="signatures and types from refsem.rs; structured containment instead of byte equality of markdown", ref="4/C14"),
  "C17": dict(technique="bounded-exhaustive enumeration of programs x layouts x comment placements through the real foldingRange handler; expected folds by construction",
    text="one fold per procedure, in source order, from the line of `proc` to the line of its last token for every generated program x layout x comment-gap variant; well-formedness (start<=end, inside document, non-overlapping) for every token soup up to 3/4 tokens",
    note="line numbers from the independent text model lsptext.rs", ref="4/C17"),
